@@ -33,10 +33,13 @@ import (
 	"github.com/named-data/ndnd/fw/core"
 	"github.com/named-data/ndnd/fw/defn"
 	"github.com/named-data/ndnd/fw/dispatch"
+	"github.com/named-data/ndnd/fw/face"
 	"github.com/named-data/ndnd/fw/fw"
+	fwmgmt "github.com/named-data/ndnd/fw/mgmt"
 	"github.com/named-data/ndnd/fw/table"
 	enc "github.com/named-data/ndnd/std/encoding"
 	"github.com/named-data/ndnd/std/ndn"
+	mgmt "github.com/named-data/ndnd/std/ndn/mgmt_2022"
 	spec "github.com/named-data/ndnd/std/ndn/spec_2022"
 	"github.com/named-data/ndnd/std/utils"
 )
@@ -130,6 +133,7 @@ type hop struct {
 	tok     string // "-", "bad", or "<name>:<cbp>:<mbf>"
 	n       int    // cap value / run ms
 	nh      uint64 // NextHopFaceId carried by the Interest (NDNLPv2 field), 0 = none
+	ucap    uint64 // mcap: the Capacity field of the cs/config command (a uint64 on the wire)
 }
 
 func b01(b bool) string {
@@ -166,6 +170,8 @@ func (o hop) String() string {
 			return "cap neg"
 		}
 		return fmt.Sprintf("cap %d", o.n)
+	case "mcap":
+		return fmt.Sprintf("mcap %d", o.ucap)
 	case "int":
 		if o.nh != 0 {
 			return fmt.Sprintf("int %d %s %s %s %d %s nh=%d", o.face, o.name, b01(o.cbp), b01(o.mbf), o.nonce, opt(o.life), o.nh)
@@ -193,6 +199,12 @@ func parseHop(s string) hop {
 			return hop{kind: "cap", n: -1}
 		}
 		return hop{kind: "cap", n: unopt(f[1])}
+	case "mcap":
+		u, err := strconv.ParseUint(f[1], 10, 64)
+		if err != nil {
+			panic("bad mcap " + s)
+		}
+		return hop{kind: "mcap", ucap: u}
 	case "int":
 		fc, _ := strconv.ParseUint(f[1], 10, 64)
 		no, _ := strconv.ParseUint(f[5], 10, 32)
@@ -384,6 +396,7 @@ func genCase(r *rand.Rand, mode string) (caseCfg, []hop) {
 		n        string
 		cbp, mbf bool
 	}
+	curCap := cfg.cap
 	var recent []ekey
 	var sentInts []hop
 	var ops []hop
@@ -397,6 +410,37 @@ func genCase(r *rand.Rand, mode string) (caseCfg, []hop) {
 			o = hop{kind: "cap", n: r.Intn(9)}
 			if r.Intn(25) == 0 {
 				o.n = -1 // what int(uint64 >= 2^63) gives in fw/mgmt/cs.go: must behave as "unlimited", not crash
+			}
+			if r.Intn(2) == 0 { // through the real management module: cs/config command Interest, boundary values
+				var u uint64
+				switch r.Intn(7) {
+				case 0:
+					u = 0
+				case 1:
+					u = 1
+				case 2:
+					if curCap > 0 {
+						u = uint64(curCap - 1)
+					}
+				case 3:
+					u = uint64(curCap)
+				case 4:
+					u = 1<<63 + uint64(r.Intn(1000))
+				default:
+					u = uint64(r.Intn(9))
+				}
+				o = hop{kind: "mcap", ucap: u}
+			}
+			if o.kind == "mcap" {
+				if o.ucap < 1<<62 {
+					curCap = int(o.ucap)
+				} else {
+					curCap = 9
+				}
+			} else if o.n >= 0 {
+				curCap = o.n
+			} else {
+				curCap = 9
 			}
 		case x < 30 && !fwOnly || csOnly && x < 45:
 			o = hop{kind: "ins", name: pick(), variant: r.Intn(3), fresh: freshes[r.Intn(len(freshes))]}
@@ -509,6 +553,7 @@ type world struct {
 	lastSt string
 	// for the quiescence horizon
 	maxLife time.Duration
+	mg      *fwmgmt.VerifPitcsMgmt
 }
 
 func (w *world) line(format string, a ...any) { fmt.Fprintf(w.out, format+"\n", a...) }
@@ -702,6 +747,14 @@ func (w *world) exec(o hop) {
 			table.SetCsCapacity(o.n)
 			w.line("op cap %d", o.n)
 		}
+	case "mcap":
+		// /localhost/nfd/cs/config/<ControlParameters(Capacity)> handed to the real ContentStoreModule
+		params := &mgmt.ControlParameters{Val: &mgmt.ControlArgs{Capacity: utils.IdPtr(o.ucap)}}
+		name, _ := enc.NameFromStr("/localhost/nfd/cs/config")
+		name = append(name, enc.NewBytesComponent(enc.TypeGenericNameComponent, params.Bytes()))
+		w.mg.CsCommand(&spec.Interest{NameV: name, NonceV: utils.IdPtr(uint32(7))}, nil, 1)
+		w.line("op mcap %d", o.ucap)
+		w.line("obs capacity %d", table.CsCapacity())
 	case "ins":
 		d, raw := mkData(o.name, o.variant, o.fresh)
 		w.tbl.InsertData(d, raw)
@@ -804,9 +857,12 @@ func runCase(t *testing.T, out *bufio.Writer, k int, src string, cfg caseCfg, op
 		c.Tables.ContentStore.Admit = cfg.admit
 		c.Tables.ContentStore.Serve = cfg.serve
 		c.Tables.DeadNonceList.Lifetime = cfg.dnlMs
+		c.Tables.Rib.ReadvertiseNlsr = false
 		core.LoadConfig(c, "/tmp")
 		table.Configure()
 		fw.Configure()
+		face.Configure()
+		fwmgmt.Configure()
 		table.CreateFIBTable("nametree")
 		w := &world{out: out, cfg: cfg, wids: map[string]int{}}
 		for f := uint64(1); f <= nFaces; f++ {
@@ -823,6 +879,7 @@ func runCase(t *testing.T, out *bufio.Writer, k int, src string, cfg caseCfg, op
 		for _, m := range cfg.mcast {
 			table.FibStrategyTable.SetStrategyEnc(m.enc(), mc)
 		}
+		w.mg = fwmgmt.VerifPitcsNewMgmt()
 		w.th = fw.NewThread(0)
 		w.tbl = fw.VerifPitcsTable(w.th)
 		w.dnl = fw.VerifPitcsDnl(w.th)
